@@ -1,10 +1,16 @@
 #!/usr/bin/env python3
-"""Generates the lexer step harnesses (DESIGN §4 C09): one harness per (mode, first-character class,
-UTF-8 shape of the symbolic window).  Usage: lexer.gen.py <tier>; prints `//// FILE <name>` sections."""
+"""Generates the lexer step harnesses (DESIGN §4 C09).
+
+Default arm: the first character of the window is concrete per block (so that CBMC's symbolic execution prunes
+the dispatch in get_next_token to one consume_* routine: measured 7-115 s per first character instead of 450 s
+for a symbolic first byte), the remaining characters are symbolic over the alphabet, in every UTF-8 shape.
+String modes: the whole window is symbolic.  Usage: lexer.gen.py <tier>; prints `//// FILE <name>` sections."""
 import os, sys
 
 KANI_ARGS = os.environ.get("KV_LEXER_KANI_ARGS", "--no-memory-safety-checks --no-assertion-reach-checks")
 HERE = os.path.dirname(os.path.realpath(__file__))
+
+ALPHA = "28 ASCII letters (space tab LF CR # - ' \" { } \\ : r a s e x o u _ 0 1 . < = > ^ +), 2-byte slots in {U+00E9, U+0301}, 3-byte slots = U+5B57"
 
 
 def shapes(n, maxlen=3):
@@ -17,88 +23,122 @@ def shapes(n, maxlen=3):
     return out
 
 
-CLASS_NAMES = {0: "whitespace", 1: "newline", 2: "comment", 3: "quote", 4: "digit", 5: "ascii id start",
-               6: "underscore", 7: "symbol / other", 9: "any"}
+# first characters of the default arm, grouped so that one harness stays around a minute
+FIRST_GROUPS = [
+    ("ws", [b" ", b"\t"]),
+    ("nl", [b"\n", b"\r"]),
+    ("hash", [b"#"]),
+    ("quote", [b"'", b'"']),
+    ("d0", [b"0"]),
+    ("d1", [b"1"]),
+    ("idr", [b"r"]),
+    ("ida", [b"a", b"s"]),
+    ("ide", [b"e", b"x"]),
+    ("ido", [b"o", b"u"]),
+    ("us", [b"_"]),
+    ("sym1", [b"-", b"{", b"}", b"\\", b":", b"."]),
+    ("sym2", [b"<", b"=", b">", b"^", b"+"]),
+    ("u2", [b"\xc3\xa9", b"\xcc\x81"]),
+    ("u3", [b"\xe5\xad\x97"]),
+]
+TEMPLATE_FIRSTS = [("tq", [b"'", b'"', b"r"]), ("ts", [b"{", b"}", b":"])]
 
 
-def fill(shape, pad):
-    lines, at = [], pad
-    for k in shape:
-        lines.append("    put%d(&mut buf, %d);" % (k, at))
+def rust_bytes(bs):
+    return ", ".join("0x%02x" % b for b in bs)
+
+
+def block(first, rest_shape, pad, call):
+    total = pad + len(first) + sum(rest_shape)
+    out = ["    {", "        let mut buf = [b'x'; %d];" % total]
+    at = pad
+    for b in first:
+        out.append("        buf[%d] = 0x%02x;" % (at, b))
+        at += 1
+    for k in rest_shape:
+        out.append("        put%d(&mut buf, %d);" % (k, at))
         at += k
-    return lines
+    out.append("        " + call)
+    out.append("    }")
+    return out
 
 
-def harness(name, mode, shape, pad, cls, tier, timeout, mem, stack_kind=0):
-    n = sum(shape)
-    total = pad + n
-    shape_s = "".join(str(k) for k in shape)
-    alpha = "28 ASCII letters (space tab LF CR # - ' \" { } \\ : r a s e x o u _ 0 1 . < = > ^ +), 2-byte slots in {U+00E9, U+0301}, 3-byte slots = U+5B57"
-    fns = {
-        "default": "TokenLexer::get_next_token default arm: consume_newline, consume_comment, consume_number, consume_id_or_keyword, parse_raw_string_start, consume_ignored, consume_symbol, advance_line*, advance_to_position",
-        "literal": "TokenLexer::get_next_token in Literal mode: consume_string_literal, advance_to_position",
-        "rawstart": "TokenLexer::get_next_token in RawStart mode: consume_raw_string_contents",
-        "rawend": "TokenLexer::get_next_token in RawEnd mode: consume_raw_string_end",
-        "format": "TokenLexer::get_next_token in TemplateExprFormat mode: consume_format_options",
-    }[mode]
-    out = []
-    out.append("// @props C09 C06 C12 C11")
-    out.append("// @tier %s" % tier)
-    out.append("// @timeout %d" % timeout)
-    out.append("// @mem %d" % mem)
-    out.append("// @fns %s" % fns)
-    out.append("// @bound one step from an arbitrary valid state; window of %d symbolic bytes, UTF-8 shape %s, after %d concrete pad byte(s); alphabet: %s; first character class: %s; mode: %s%s" % (
-        n, shape, pad, alpha, CLASS_NAMES[cls], mode, " inside a template expression (stack [Literal(q), TemplateExpr|InlineMap])" if stack_kind else ""))
-    out.append("// @assume pre-state: line, column, indent < 2^30 (no u32 overflow of positions); previous token in {None, NewLine, Dot, Whitespace, Id, StringLiteral}")
-    out.append("// @assume tokens longer than the window are covered only through the unwinding bound")
-    out.append("// @kani " + KANI_ARGS)
-    out.append("#[kani::proof]")
-    out.append("#[kani::unwind(%d)]" % max(n + 2, 4))
-    out.append("fn %s() {" % name)
-    out.append("    let mut buf = [b'x'; %d];" % total)
-    out += fill(shape, pad)
-    if cls != 9 and shape and shape[0] == 1:
-        out.append("    kani::assume(class_ok(%d, buf[%d]));" % (cls, pad))
-    call = {
-        "default": "step_default(&buf, %d, %d);" % (stack_kind, pad),
-        "literal": "step_literal(&buf, %d);" % pad,
-        "rawstart": "step_raw_start(&buf, %d);" % pad,
-        "rawend": "step_raw_end(&buf, %d);" % pad,
-        "format": "step_format(&buf, %d);" % pad,
-    }[mode]
-    out.append("    " + call)
-    out.append("}")
-    out.append("")
+def header(tier, timeout, mem, fns, bound, unwind, name):
+    return [
+        "// @props C09 C06 C12",
+        "// @tier %s" % tier,
+        "// @timeout %d" % timeout,
+        "// @mem %d" % mem,
+        "// @fns %s" % fns,
+        "// @bound %s" % bound,
+        "// @assume pre-state: line, column, indent < 2^30 (no u32 overflow of positions); previous token in {None, NewLine, Dot, Whitespace, Id, StringLiteral}; a token longer than the window is covered only as far as the window reaches (it then runs into the end of the input)",
+        "// @kani " + KANI_ARGS,
+        "#[kani::proof]",
+        "#[kani::unwind(%d)]" % unwind,
+        "fn %s() {" % name,
+    ]
+
+
+FNS = {
+    "default": "TokenLexer::get_next_token default arm: consume_newline, consume_comment, consume_number, consume_id_or_keyword, parse_raw_string_start, consume_ignored, consume_symbol, advance_line, advance_line_utf8, advance_to_position",
+    "literal": "TokenLexer::get_next_token in Literal mode: consume_string_literal, advance_to_position",
+    "rawstart": "TokenLexer::get_next_token in RawStart mode: consume_raw_string_contents",
+    "rawend": "TokenLexer::get_next_token in RawEnd mode: consume_raw_string_end",
+    "format": "TokenLexer::get_next_token in TemplateExprFormat mode: consume_format_options",
+}
+
+
+def default_harness(gname, firsts, nrest, pad, tier, timeout, mem, stack_kind, suffix=""):
+    name = "c09_def%d_%s_n%d%s" % (stack_kind, gname, nrest, suffix)
+    maxfirst = max(len(f) for f in firsts)
+    n = maxfirst + nrest
+    bound = ("one step from an arbitrary valid state; window = concrete first character in {%s} followed by %d symbolic bytes in every UTF-8 shape %s, after %d concrete pad byte(s); alphabet: %s; mode stack: %s" % (
+        ", ".join(repr(f.decode("utf-8")) for f in firsts), nrest, shapes(nrest), pad, ALPHA,
+        {0: "empty", 1: "[Literal, TemplateExpr] (inside a template expression)", 2: "[Literal, TemplateExprInlineMap] (inside an inline map of a template expression)"}[stack_kind]))
+    out = header(tier, timeout, mem, FNS["default"], bound, max(n + 2, 4), name)
+    for f in firsts:
+        for sh in shapes(nrest):
+            out += block(f, sh, pad, "step_default(&buf, %d, %d, true);" % (stack_kind, pad))
+    out += ["}", ""]
+    return "\n".join(out)
+
+
+def mode_harness(mode, shape_list, n, pad, tier, timeout, mem, suffix=""):
+    name = "c09_%s_n%d%s" % (mode, n, suffix)
+    bound = "one step from an arbitrary valid state; window of %d symbolic bytes in UTF-8 shapes %s after %d pad byte(s); alphabet: %s; mode: %s" % (
+        n, shape_list, pad, ALPHA, mode)
+    out = header(tier, timeout, mem, FNS[mode], bound, max(n + 2, 4), name)
+    call = {"literal": "step_literal", "rawstart": "step_raw_start", "rawend": "step_raw_end", "format": "step_format"}[mode]
+    for sh in shape_list:
+        expect = "true" if (1 in sh or mode == "rawend") else "false"
+        out += block(b"", sh, pad, "%s(&buf, %d, %s);" % (call, pad, expect))
+    out += ["}", ""]
     return "\n".join(out)
 
 
 def main():
     common = open(os.path.join(HERE, "lexer_common.rs.in")).read()
     body = [common]
-    # (n, tier, timeout, mem)
-    plan = [(1, "quick", 600, 12), (2, "quick", 600, 12), (3, "quick", 900, 16), (4, "thorough", 2400, 24)]
-    for n, tier, timeout, mem in plan:
-        for shape in shapes(n):
-            ss = "".join(str(k) for k in shape)
-            pad = 1
-            # default arm, empty stack: by first-character class when the first slot is ASCII
-            if shape[0] == 1:
-                for cls in range(8):
-                    body.append(harness("c09_def0_c%d_s%s" % (cls, ss), "default", shape, pad, cls, tier, timeout, mem))
-                # inside a template expression: quotes and symbols are what differs
-                for cls in (3, 5, 7):
-                    body.append(harness("c09_def1_c%d_s%s" % (cls, ss), "default", shape, pad, cls, tier, timeout, mem, 1))
+    # default arm: nrest symbolic bytes behind the concrete first character
+    for nrest, tier, timeout, mem in [(2, "quick", 900, 6), (3, "thorough", 1800, 10), (4, "thorough", 3600, 16)]:
+        for gname, firsts in FIRST_GROUPS:
+            body.append(default_harness(gname, firsts, nrest, 1, tier, timeout, mem, 0))
+        for gname, firsts in TEMPLATE_FIRSTS:
+            body.append(default_harness(gname, firsts, nrest, 1, tier, timeout, mem, 1))
+            body.append(default_harness(gname, firsts, nrest, 1, tier, timeout, mem, 2))
+    # cursor at the very start of the source (no pad byte): the successor of the initial state
+    body.append(default_harness("p0a", [b" ", b"\n", b"a"], 2, 0, "quick", 900, 6, 0, "_p0"))
+    body.append(default_harness("p0b", [b"#", b"0", b"\xc3\xa9"], 2, 0, "thorough", 1800, 10, 0, "_p0"))
+    # string modes: fully symbolic window
+    for n, tier, timeout, mem in [(2, "quick", 900, 6), (3, "quick", 900, 6), (4, "thorough", 2400, 16)]:
+        for mode in ("literal", "rawstart", "format"):
+            if n <= 2:
+                body.append(mode_harness(mode, shapes(n) + shapes(1), n, 1, tier, timeout, mem))
             else:
-                body.append(harness("c09_def0_c9_s%s" % ss, "default", shape, pad, 9, tier, timeout, mem))
-            body.append(harness("c09_lit_s%s" % ss, "literal", shape, pad, 9, tier, timeout, mem))
-            body.append(harness("c09_raws_s%s" % ss, "rawstart", shape, pad, 9, tier, timeout, mem))
-            body.append(harness("c09_fmt_s%s" % ss, "format", shape, pad, 9, tier, timeout, mem))
-            if n <= 3 and all(k == 1 for k in shape):
-                body.append(harness("c09_rawe_s%s" % ss, "rawend", shape, pad, 9, tier, timeout, mem))
-        # cursor at the very start of the source (pad 0): the initial state's successor
-        if n <= 3:
-            shape = [1] * n
-            body.append(harness("c09_def0_c9_p0_s%s" % ("1" * n), "default", shape, 0, 9, tier, timeout, mem))
+                for sh in shapes(n):
+                    t = tier if (n > 3 or all(k == 1 for k in sh)) else "thorough"
+                    body.append(mode_harness(mode, [sh], n, 1, t, timeout, mem, "_s" + "".join(map(str, sh))))
+    body.append(mode_harness("rawend", [[1], [1, 1], [1, 1, 1], [1, 1, 1, 1]], 4, 1, "quick", 600, 6))
     print("//// FILE lexer_steps.rs")
     print("\n".join(body))
 
